@@ -9,6 +9,7 @@ import (
 	"fmt"
 	"hash/crc32"
 	"os"
+	"os/signal"
 	"path/filepath"
 	"sync"
 	"sync/atomic"
@@ -550,6 +551,53 @@ func c19Sinks(w *W) {
 		}
 		a.Stop()
 		time.Sleep(100 * time.Millisecond)
+	})
+	// write(2) failing on REGULAR files: the soft RLIMIT_FSIZE is lowered to 4 KiB for the duration of the scenario (SIGXFSZ
+	// ignored), so every write beyond that offset fails with EFBIG - for the plain file, and for a rolling appender across
+	// one real rotation (the new file accepts 4 KiB again). The calls must return normally; what fit must be in the files.
+	fsize := func(run func()) {
+		var old syscall.Rlimit
+		if syscall.Getrlimit(syscall.RLIMIT_FSIZE, &old) != nil {
+			return
+		}
+		signal.Ignore(syscall.SIGXFSZ)
+		_ = syscall.Setrlimit(syscall.RLIMIT_FSIZE, &syscall.Rlimit{Cur: 4096, Max: old.Max})
+		defer func() { _ = syscall.Setrlimit(syscall.RLIMIT_FSIZE, &old) }()
+		run()
+	}
+	add("file:write-fails-EFBIG", func() {
+		fsize(func() {
+			a := &log.FileAppender{Layout: tl(), FileDir: dir, FileName: "efbig.log"}
+			_ = a.Start()
+			for i := 0; i < 80; i++ { // ~80 x 90 bytes: crosses the limit
+				both(a)
+			}
+			a.Stop()
+		})
+		if st, err := os.Stat(filepath.Join(dir, "efbig.log")); err != nil || st.Size() == 0 || st.Size() > 4096 {
+			w.Note(fmt.Sprintf("file-size limit scenario: the limit did not take effect (%v)", err))
+		}
+	})
+	add("rolling:write-fails-EFBIG-across-a-rotation", func() {
+		d4 := filepath.Join(dir, "efbig")
+		_ = os.MkdirAll(d4, 0755)
+		fsize(func() {
+			a := &log.RollingFileAppender{Layout: tl(), FileDir: d4, FileName: "r.log", Rotation: log.TimeRotation{Interval: time.Second}, MaxAge: 24}
+			_ = a.Start()
+			for i := 0; i < 80; i++ {
+				both(a)
+			}
+			now := time.Now()
+			time.Sleep(now.Truncate(time.Second).Add(time.Second + 5*time.Millisecond).Sub(now))
+			for i := 0; i < 80; i++ {
+				both(a)
+			}
+			a.Stop()
+		})
+		ents, _ := os.ReadDir(d4)
+		if len(ents) < 2 {
+			w.Note(fmt.Sprintf("file-size limit scenario: expected two rotated files, found %d", len(ents)))
+		}
 	})
 	for name, wr := range map[string]func(){
 		"console:erroring-writer": func() { log.Stdout = errWriter{} },
